@@ -8,6 +8,7 @@ def linkRecreatesSymlink : Bool := true
 def fallbackUsesSourceMode : Bool := true
 def symlinkVerbatim : Bool := true
 def defaultMode : Nat := 436
+def tempThenRename : Bool := true
 def recursiveCopyArgs : String := "mode,false,false"
 def recursiveLinkArgs : String := "0,true,true"
 end PlzVerif.Generated.C34
